@@ -80,10 +80,40 @@ func verifDecodeTree(c *verifCur) []verifFile {
 // directly above the declaration (they become its Doc comment group); "other" lines are
 // comments that are NOT the declaration's doc: inside the body, detached above (blank line
 // between), or on a spec inside a parenthesised group.
+// render = variant (bits 0-3) | file header variant (bits 4-7, first declaration only: build
+// constraint lines before the package clause, import "C") | long-line position (bits 8-9: 1 = long
+// comment line detached above, 2 = long string literal in an extra var declaration above, 3 = long
+// comment after the declaration) | long-line length (bits 10..).
 func verifRender(f verifFile) string {
 	var b strings.Builder
+	header := uint64(0)
+	if len(f.decls) > 0 {
+		header = (f.decls[0].render >> 4) & 15
+	}
+	b.WriteString(map[uint64]string{1: "//go:build ignore\n\n", 2: "// +build ignore\n\n", 3: "//go:build !amd64\n\n", 4: "//go:build debug\n\n",
+		5: "//go:build linux && amd64\n\n", 7: "//go:build amd64 && !cgo\n// +build amd64,!cgo\n\n", 8: "//go:build windows || arm64\n\n"}[header])
 	b.WriteString("// Package p is generated.\npackage p\n\n")
+	if header == 6 {
+		b.WriteString("import \"C\"\n\n")
+	}
 	for _, d := range f.decls {
+		longPos, longLen := (d.render>>8)&3, int(d.render>>10)
+		d.render &= 15
+		long := ""
+		if longPos != 0 && longLen > 0 {
+			fill := strings.Repeat("x", longLen)
+			if longLen%2 == 1 && longLen > 40 {
+				fill = fill[:longLen-32] + " //go:redirect-from runtime.long"
+			}
+			if longPos == 2 {
+				long = "var _ = \"" + fill + "\"\n\n"
+			} else {
+				long = "// " + fill + "\n\n"
+			}
+		}
+		if longPos == 1 || longPos == 2 {
+			b.WriteString(long)
+		}
 		detached := (d.render/8)%2 == 1
 		if d.kind != 0 {
 			detached = (d.render/8)%2 == 0
@@ -157,6 +187,9 @@ func verifRender(f verifFile) string {
 			}
 		}
 		b.WriteString("\n")
+		if longPos == 3 {
+			b.WriteString(long)
+		}
 	}
 	return b.String()
 }
